@@ -412,7 +412,7 @@ func (server *Server) callService(ctx *Context) {
 
 func (server *Server) sendResponse(ctx *Context) {
 	var reply interface{}
-	if len(ctx.Error) == 0 && ctx.upgrade.NoResponse != noResponse {
+	if len(ctx.Error) == 0 && ctx.upgrade.NoResponse != noResponse && ctx.reply != funcs.ZeroValue {
 		reply = ctx.reply.Interface()
 	}
 	err := ctx.codec.WriteResponse(ctx, reply)
